@@ -11,7 +11,7 @@ if os.path.exists(f'{root}/seeded/matrix.tsv'):
         if len(f) >= 5:
             rows[f[0]] = f  # last run wins
 first_run = {}
-for frf in ('matrix_round2_first_run.tsv', 'matrix_round3_first_run.tsv'):
+for frf in ('matrix_round2_first_run.tsv', 'matrix_round3_first_run.tsv', 'matrix_round4_first_run.tsv', 'matrix_round5_first_run.tsv'):
     if not os.path.exists(f'{root}/seeded/{frf}'):
         continue
     for l in open(f'{root}/seeded/{frf}'):
@@ -26,7 +26,7 @@ lines = ["Each seed is a change written by a sub-agent that saw only the propert
          "dropped).", "",
          "| seed | change (one line) | caught | contract obligations | bounded signatures |", "|---|---|---|---|---|"]
 n_c = n_b = n_any = 0
-ids = sorted(d for d in os.listdir(f'{root}/seeded') if re.match(r'C\d\d[abcd]$', d))
+ids = sorted(d for d in os.listdir(f'{root}/seeded') if re.match(r'C\d\d[a-z]$', d))
 for i in ids:
     meta = json.load(open(f'{root}/seeded/{i}/meta.json'))
     summ = meta.get('summary', '').replace('|', '/').replace('\n', ' ')
